@@ -221,3 +221,8 @@ func GuardMap(m any, name string) {}
 // choice, or never). Pass nil to cancel. Natively (replay) the recorded choice is consumed at ...
 // nothing: native replay does not preempt; harnesses using it replay symbolically.
 func Interleave(f func()) {}
+
+// CBORCopy: *dst = what cbor.Unmarshal(cbor.Marshal(*src)) yields (symbolically: the type-directed
+// field model of JSONCopy with `cbor` struct tags; natively: fxamacker/cbor is not imported here,
+// harnesses using it replay symbolically).
+func CBORCopy(dst, src any) bool { panic("vf.CBORCopy has no native semantics") }
